@@ -81,25 +81,55 @@ theorem refs_of_ckpt {x : Inst} {c : Ckpt} {t : Tbl} (hc : c ∈ x.ckpts) (ht : 
 theorem mem_rmFile {fs : List File} {f g : File} : g ∈ rmFile fs f ↔ g ∈ fs ∧ g ≠ f := by
   simp [rmFile]
 
-theorem mem_rmWals {fs : List File} {ws : List Path} {g : File} :
-    g ∈ rmWals fs ws ↔ g ∈ fs ∧ ∀ w ∈ ws, g ≠ .wal w := by
+theorem mem_rmWals {fs : List File} {ws : List Wal} {g : File} :
+    g ∈ rmWals fs ws ↔ g ∈ fs ∧ ∀ w ∈ ws, ∀ v, g = .wal v → w.same v = false := by
   unfold rmWals
   rw [List.mem_filter]
   constructor
   · rintro ⟨hg, hk⟩
     refine ⟨hg, ?_⟩
-    intro w hw he
+    intro w hw v he
     subst he
-    simp [hw] at hk
+    simp only [Bool.not_eq_true', List.any_eq_false] at hk
+    simpa using hk w hw
   · rintro ⟨hg, hk⟩
     refine ⟨hg, ?_⟩
     cases g with
     | sst p => rfl
-    | wal w =>
-      have : w ∉ ws := fun hw => hk w hw rfl
-      simp [this]
+    | wal v =>
+      simp only [Bool.not_eq_true', List.any_eq_false]
+      intro w hw
+      simpa using hk w hw v rfl
 
-theorem mem_walsOf {cs : List Ckpt} {w : Path} : w ∈ walsOf cs ↔ ∃ c ∈ cs, w ∈ c.wals := by
+theorem mem_clobber {fs : List File} {w : Wal} {g : File} :
+    g ∈ clobber fs w ↔ g ∈ fs ∧ ∀ v, g = .wal v → w.same v = false := by
+  unfold clobber
+  rw [List.mem_filter]
+  constructor
+  · rintro ⟨hg, hk⟩
+    refine ⟨hg, ?_⟩
+    intro v he
+    subst he
+    simpa using hk
+  · rintro ⟨hg, hk⟩
+    refine ⟨hg, ?_⟩
+    cases g with
+    | sst p => rfl
+    | wal v => simpa using hk v rfl
+
+theorem same_comm (a b : Wal) : a.same b = b.same a := by
+  simp only [Wal.same]
+  rw [Bool.beq_comm (a := a.dir), Bool.beq_comm (a := a.num)]
+
+theorem same_num {a b : Wal} (h : a.same b = true) : a.dir = b.dir ∧ a.num = b.num := by
+  simpa [Wal.same] using h
+
+theorem not_same_of_num {a b : Wal} (h : a.num ≠ b.num) : a.same b = false := by
+  cases hs : a.same b with
+  | false => rfl
+  | true => exact absurd (same_num hs).2 h
+
+theorem mem_walsOf {cs : List Ckpt} {w : Wal} : w ∈ walsOf cs ↔ ∃ c ∈ cs, w ∈ c.wals := by
   simp [walsOf, List.mem_flatMap]
 
 theorem mem_droppedOf {cs : List Ckpt} {ids : List Nat} {c : Ckpt} :
@@ -147,8 +177,9 @@ structure Inv1 (s : State) (x : Inst) : Prop where
   norel : x.life ≠ .released
   safe : Safe s
   own : ∀ h ∈ s.retained, s.floor < h.id ∧ ∃ c ∈ x.ckpts, c.id = h.id ∧ c.tables = h.tables ∧ c.wals = h.wals
-  wuniq : ∀ c ∈ x.ckpts, ∀ c' ∈ x.ckpts, ∀ w, w ∈ c.wals → w ∈ c'.wals → c.id = c'.id
-  wused : ∀ c ∈ x.ckpts, ∀ w ∈ c.wals, w ∈ s.used
+  /-- a WAL file name belongs to checkpoints of one id, and all WAL files lie below the next WAL number -/
+  wuniq : ∀ c ∈ x.ckpts, ∀ c' ∈ x.ckpts, ∀ w ∈ c.wals, ∀ w' ∈ c'.wals, w.same w' = true → c.id = c'.id
+  wnum : ∀ c ∈ x.ckpts, ∀ w ∈ c.wals, w.num < x.walNext
 
 theorem inv1_init (range : KGRange) (nbrs : List KGRange) :
     Inv1 (init1 range nbrs) { range := range, nbrs := nbrs } where
@@ -157,12 +188,12 @@ theorem inv1_init (range : KGRange) (nbrs : List KGRange) :
   safe := by intro f hf; simp [needed, liveTables, init1, uris] at hf
   own := by intro h hh; simp [init1] at hh
   wuniq := by intro c hc; simp at hc
-  wused := by intro c hc; simp at hc
+  wnum := by intro c hc; simp at hc
 
 /-- a step that keeps the retained handles, the checkpoint list and the WAL files, and only adds table files that
 become part of the current list -/
 theorem inv1_tables {s : State} {x x' : Inst} {F : List File} {U : List Path} (inv : Inv1 s x)
-    (hck : x'.ckpts = x.ckpts) (hrel : x'.life ≠ .released)
+    (hck : x'.ckpts = x.ckpts) (hwn : x'.walNext = x.walNext) (hrel : x'.life ≠ .released)
     (hF : ∀ f ∈ s.files, f ∈ F) (hU : ∀ u ∈ s.used, u ∈ U)
     (hcur : x'.life = .alive → ∀ t ∈ x'.current, (x.life = .alive ∧ t ∈ x.current) ∨ .sst t.uri ∈ F) :
     Inv1 { s with insts := [x'], files := F, used := U } x' where
@@ -178,8 +209,12 @@ theorem inv1_tables {s : State} {x x' : Inst} {F : List File} {U : List Path} (i
     · exact hF _ (inv.safe _ ((mem_needed1 inv.shape _).mpr (Or.inr ⟨h, hh, hr⟩)))
   own := by intro h hh; rw [hck]; exact inv.own h hh
   wuniq := by rw [hck]; exact inv.wuniq
-  wused := by rw [hck]; intro c hc w hw; exact hU _ (inv.wused c hc w hw)
+  wnum := by rw [hck, hwn]; exact inv.wnum
 
+
+/-- the instance after sealing WAL `wal` into checkpoint `id` -/
+@[reducible] def ckptInst (x : Inst) (id : Nat) (wal : Wal) : Inst :=
+  { x with ckpts := x.ckpts ++ [⟨id, x.current, [wal], false⟩], walNext := x.walNext + 1 }
 
 theorem set_single (x y : Inst) : [x].set 0 y = [y] := rfl
 
@@ -207,7 +242,7 @@ theorem step_inv1 {s s' : State} {x : Inst} {a : Act} (inv : Inv1 s x) (hsc : in
         injection hstep with hstep; subst hstep
         refine ⟨{ x with current := t :: x.current, created := t.uri :: x.created }, ?_⟩
         have := inv1_tables (x' := { x with current := t :: x.current, created := t.uri :: x.created })
-          (F := .sst t.uri :: s.files) (U := t.uri :: s.used) inv rfl inv.norel
+          (F := .sst t.uri :: s.files) (U := t.uri :: s.used) inv rfl rfl inv.norel
           (fun f hf => List.mem_cons_of_mem _ hf) (fun u hu => List.mem_cons_of_mem _ hu)
           (by
             intro hl t' ht'
@@ -228,7 +263,7 @@ theorem step_inv1 {s s' : State} {x : Inst} {a : Act} (inv : Inv1 s x) (hsc : in
                          created := uris add ++ x.created }, ?_⟩
         have := inv1_tables (x' := { x with current := x.current.filter (fun t => !rm.contains t.uri) ++ add,
                                              created := uris add ++ x.created })
-          (F := (uris add).map File.sst ++ s.files) (U := uris add ++ s.used) inv rfl inv.norel
+          (F := (uris add).map File.sst ++ s.files) (U := uris add ++ s.used) inv rfl rfl inv.norel
           (fun f hf => List.mem_append_right _ hf) (fun u hu => List.mem_append_right _ hu)
           (by
             intro hl t' ht'
@@ -246,7 +281,7 @@ theorem step_inv1 {s s' : State} {x : Inst} {a : Act} (inv : Inv1 s x) (hsc : in
       · rename_i hc
         injection hstep with hstep; subst hstep
         refine ⟨{ x with snaps := x.current :: x.snaps }, ?_⟩
-        have := inv1_tables (x' := { x with snaps := x.current :: x.snaps }) (F := s.files) (U := s.used) inv rfl inv.norel
+        have := inv1_tables (x' := { x with snaps := x.current :: x.snaps }) (F := s.files) (U := s.used) inv rfl rfl inv.norel
           (fun f hf => hf) (fun u hu => hu) (fun hl t' ht' => Or.inl ⟨hc, ht'⟩)
         simpa [setInst, hs] using this
       · simp at hstep
@@ -259,7 +294,7 @@ theorem step_inv1 {s s' : State} {x : Inst} {a : Act} (inv : Inv1 s x) (hsc : in
       · rename_i hc
         injection hstep with hstep; subst hstep
         refine ⟨{ x with snaps := x.snaps.eraseIdx k }, ?_⟩
-        have := inv1_tables (x' := { x with snaps := x.snaps.eraseIdx k }) (F := s.files) (U := s.used) inv rfl inv.norel
+        have := inv1_tables (x' := { x with snaps := x.snaps.eraseIdx k }) (F := s.files) (U := s.used) inv rfl rfl inv.norel
           (fun f hf => hf) (fun u hu => hu) (fun hl t' ht' => Or.inl ⟨hc, ht'⟩)
         simpa [setInst, hs] using this
       · simp at hstep
@@ -272,7 +307,7 @@ theorem step_inv1 {s s' : State} {x : Inst} {a : Act} (inv : Inv1 s x) (hsc : in
       · rename_i hc
         injection hstep with hstep; subst hstep
         refine ⟨{ x with life := .crashed }, ?_⟩
-        have := inv1_tables (x' := { x with life := .crashed }) (F := s.files) (U := s.used) inv rfl (by simp)
+        have := inv1_tables (x' := { x with life := .crashed }) (F := s.files) (U := s.used) inv rfl rfl (by simp)
           (fun f hf => hf) (fun u hu => hu) (fun hl => by simp at hl)
         simpa [setInst, hs] using this
       · simp at hstep
@@ -299,7 +334,7 @@ theorem step_inv1 {s s' : State} {x : Inst} {a : Act} (inv : Inv1 s x) (hsc : in
           show max s.floor k < h.id
           exact Nat.max_lt.mpr ⟨this.1, hk⟩
         wuniq := inv.wuniq
-        wused := inv.wused }
+        wnum := inv.wnum }
     · simp at hstep
   | ckpt i id wal =>
     cases i with
@@ -308,27 +343,45 @@ theorem step_inv1 {s s' : State} {x : Inst} {a : Act} (inv : Inv1 s x) (hsc : in
       simp only [step, hs, List.getElem?_cons_zero] at hstep
       split at hstep
       · rename_i hc
-        obtain ⟨hal, hfl, hid, hfresh⟩ := hc
+        obtain ⟨hal, hfl, hid, _, _, hnum⟩ := hc
         injection hstep with hstep; subst hstep
-        refine ⟨{ x with ckpts := x.ckpts ++ [⟨id, x.current, [wal], false⟩] }, ?_⟩
-        have hfresh' : wal ∉ s.used := by simpa using hfresh
+        refine ⟨ckptInst x id wal, ?_⟩
+        have hmemck : ∀ c, c ∈ x.ckpts ++ [(⟨id, x.current, [wal], false⟩ : Ckpt)] →
+            c ∈ x.ckpts ∨ c = ⟨id, x.current, [wal], false⟩ := by
+          intro c hc
+          rcases List.mem_append.mp hc with h1 | h1
+          · exact Or.inl h1
+          · exact Or.inr (by simpa using h1)
+        -- the new WAL has a number no checkpoint of the list uses: nothing referenced is overwritten
+        have hold : ∀ c ∈ x.ckpts, ∀ w ∈ c.wals, wal.same w = false := by
+          intro c hc w hw
+          have := inv.wnum c hc w hw
+          exact not_same_of_num (by omega)
         exact {
           shape := by simp [setInst, hs]
           norel := inv.norel
           safe := by
             intro f hf
-            rw [mem_needed1 (x := { x with ckpts := x.ckpts ++ [⟨id, x.current, [wal], false⟩] })
-              (by simp [setInst, hs])] at hf
-            show f ∈ File.wal wal :: s.files
+            rw [mem_needed1 (x := ckptInst x id wal) (by simp [setInst, hs])] at hf
+            show f ∈ File.wal wal :: clobber s.files wal
             rcases hf with ⟨hl, t, ht, rfl⟩ | ⟨h, hh, hr⟩
-            · exact List.mem_cons_of_mem _ (inv.safe _ ((mem_needed1 hs _).mpr (Or.inl ⟨hl, t, ht, rfl⟩)))
+            · exact List.mem_cons_of_mem _ (mem_clobber.mpr
+                ⟨inv.safe _ ((mem_needed1 hs _).mpr (Or.inl ⟨hl, t, ht, rfl⟩)), by intro v hv; cases hv⟩)
             · rcases List.mem_cons.mp hh with rfl | hh
               · rcases hr with ⟨t, ht, rfl⟩ | ⟨w, hw, rfl⟩
-                · exact List.mem_cons_of_mem _ (inv.safe _ ((mem_needed1 hs _).mpr (Or.inl ⟨hal, t, ht, rfl⟩)))
+                · exact List.mem_cons_of_mem _ (mem_clobber.mpr
+                    ⟨inv.safe _ ((mem_needed1 hs _).mpr (Or.inl ⟨hal, t, ht, rfl⟩)), by intro v hv; cases hv⟩)
                 · have : w = wal := by simpa using hw
                   subst this
                   exact List.mem_cons_self ..
-              · exact List.mem_cons_of_mem _ (inv.safe _ ((mem_needed1 hs _).mpr (Or.inr ⟨h, hh, hr⟩)))
+              · refine List.mem_cons_of_mem _ (mem_clobber.mpr
+                  ⟨inv.safe _ ((mem_needed1 hs _).mpr (Or.inr ⟨h, hh, hr⟩)), ?_⟩)
+                rcases hr with ⟨t, ht, rfl⟩ | ⟨w, hw, rfl⟩
+                · intro v hv; cases hv
+                · intro v hv
+                  injection hv with hv; subst hv
+                  obtain ⟨_, c, hcm, _, _, hwals⟩ := inv.own h hh
+                  exact hold c hcm w (hwals ▸ hw)
           own := by
             intro h hh
             rcases List.mem_cons.mp hh with rfl | hh
@@ -336,36 +389,29 @@ theorem step_inv1 {s s' : State} {x : Inst} {a : Act} (inv : Inv1 s x) (hsc : in
             · obtain ⟨h1, c, hc, h2⟩ := inv.own h hh
               exact ⟨h1, c, List.mem_append_left _ hc, h2⟩
           wuniq := by
-            intro c hc c' hc' w hw hw'
-            have hc1 : c ∈ x.ckpts ∨ c = ⟨id, x.current, [wal], false⟩ := by
-              rcases List.mem_append.mp hc with h1 | h1
-              · exact Or.inl h1
-              · exact Or.inr (by simpa using h1)
-            have hc2 : c' ∈ x.ckpts ∨ c' = ⟨id, x.current, [wal], false⟩ := by
-              rcases List.mem_append.mp hc' with h1 | h1
-              · exact Or.inl h1
-              · exact Or.inr (by simpa using h1)
-            rcases hc1 with h1 | h1 <;> rcases hc2 with h2 | h2
-            · exact inv.wuniq c h1 c' h2 w hw hw'
+            intro c hc c' hc' w hw w' hw' hs'
+            rcases hmemck c hc with h1 | h1 <;> rcases hmemck c' hc' with h2 | h2
+            · exact inv.wuniq c h1 c' h2 w hw w' hw' hs'
             · rw [h2] at hw'
-              have hww : w = wal := by simpa using hw'
-              rw [hww] at hw
-              exact absurd (inv.wused c h1 wal hw) hfresh'
+              have hww : w' = wal := by simpa using hw'
+              rw [hww] at hs'
+              have := hold c h1 w hw
+              rw [same_comm, hs'] at this; cases this
             · rw [h1] at hw
               have hww : w = wal := by simpa using hw
-              rw [hww] at hw'
-              exact absurd (inv.wused c' h2 wal hw') hfresh'
+              rw [hww] at hs'
+              have := hold c' h2 w' hw'
+              rw [hs'] at this; cases this
             · rw [h1, h2]
-          wused := by
+          wnum := by
             intro c hc w hw
-            show w ∈ wal :: s.used
-            rcases List.mem_append.mp hc with hc | hc
-            · exact List.mem_cons_of_mem _ (inv.wused c hc w hw)
-            · have : c = ⟨id, x.current, [wal], false⟩ := by simpa using hc
-              subst this
+            show w.num < x.walNext + 1
+            rcases hmemck c hc with h1 | h1
+            · have := inv.wnum c h1 w hw; omega
+            · subst h1
               have : w = wal := by simpa using hw
               subst this
-              exact List.mem_cons_self .. }
+              omega }
       · simp at hstep
   | retain i ids =>
     cases i with
@@ -395,29 +441,32 @@ theorem step_inv1 {s s' : State} {x : Inst} {a : Act} (inv : Inv1 s x) (hsc : in
             show f ∈ rmWals s.files (walsOf (droppedOf x.ckpts ids))
             rw [mem_rmWals]
             rcases hf with ⟨hl, t, ht, rfl⟩ | ⟨h, hh, hr⟩
-            · exact ⟨inv.safe _ ((mem_needed1 hs _).mpr (Or.inl ⟨hl, t, ht, rfl⟩)), by intro w _ hne; cases hne⟩
+            · exact ⟨inv.safe _ ((mem_needed1 hs _).mpr (Or.inl ⟨hl, t, ht, rfl⟩)), by intro w _ v hne; cases hne⟩
             · refine ⟨inv.safe _ ((mem_needed1 hs _).mpr (Or.inr ⟨h, hh, hr⟩)), ?_⟩
               rcases hr with ⟨t, ht, rfl⟩ | ⟨w, hw, rfl⟩
-              · intro w _ hne; cases hne
-              · intro w' hw' hne
+              · intro w _ v hne; cases hne
+              · intro w' hw' v hne
                 injection hne with hne
                 subst hne
                 obtain ⟨hfl, c, hcm, hid, _, hwals⟩ := inv.own h hh
                 obtain ⟨c', hc', hwc'⟩ := mem_walsOf.mp hw'
                 have hd := mem_droppedOf.mp hc'
-                have := inv.wuniq c hcm c' hd.1 w (hwals ▸ hw) hwc'
-                have := hok c' hc'
-                omega
+                cases hsm : w'.same w with
+                | false => rfl
+                | true =>
+                  have := inv.wuniq c' hd.1 c hcm w' hwc' w (hwals ▸ hw) hsm
+                  have := hok c' hc'
+                  omega
           own := by
             intro h hh
             obtain ⟨h1, c, hcm, hid, h2⟩ := inv.own h hh
             exact ⟨h1, c, hkept h hh c hcm hid, hid, h2⟩
           wuniq := by
-            intro c hcm c' hcm' w hw hw'
-            exact inv.wuniq c (mem_keptOf.mp hcm).1 c' (mem_keptOf.mp hcm').1 w hw hw'
-          wused := by
+            intro c hcm c' hcm'
+            exact inv.wuniq c (mem_keptOf.mp hcm).1 c' (mem_keptOf.mp hcm').1
+          wnum := by
             intro c hcm w hw
-            exact inv.wused c (mem_keptOf.mp hcm).1 w hw }
+            exact inv.wnum c (mem_keptOf.mp hcm).1 w hw }
       · simp at hstep
   | collect i u answers =>
     cases i with
@@ -435,9 +484,9 @@ theorem step_inv1 {s s' : State} {x : Inst} {a : Act} (inv : Inv1 s x) (hsc : in
           | crashed => simpa [hx] using hun
           | released => exact absurd hx hl
         have key : ∀ (x' : Inst) (F : List File), x'.ckpts = x.ckpts → x'.current = x.current → x'.life = x.life →
-            (∀ f ∈ s.files, f ≠ .sst u → f ∈ F) → x.life ≠ .released →
+            x'.walNext = x.walNext → (∀ f ∈ s.files, f ≠ .sst u → f ∈ F) → x.life ≠ .released →
             Inv1 { s with insts := [x'], files := F } x' := by
-          intro x' F hck hcur hlife hF hl
+          intro x' F hck hcur hlife hwn hF hl
           exact {
             shape := rfl
             norel := hlife ▸ hl
@@ -462,12 +511,12 @@ theorem step_inv1 {s s' : State} {x : Inst} {a : Act} (inv : Inv1 s x) (hsc : in
               · exact inv.safe _ ((mem_needed1 hs _).mpr (Or.inr ⟨h, hh, hr⟩))
             own := by intro h hh; rw [hck]; exact inv.own h hh
             wuniq := by rw [hck]; exact inv.wuniq
-            wused := by rw [hck]; exact inv.wused }
+            wnum := by rw [hck, hwn]; exact inv.wnum }
         split at hstep
         · injection hstep with hstep; subst hstep
           refine ⟨{ x with created := x.created.erase u }, ?_⟩
           have := key { x with created := x.created.erase u }
-            (if (Facts.c09CreatedDeletes == 1) = true then rmFile s.files (.sst u) else s.files) rfl rfl rfl
+            (if (Facts.c09CreatedDeletes == 1) = true then rmFile s.files (.sst u) else s.files) rfl rfl rfl rfl
             (by
               intro f hf hne
               split
@@ -481,7 +530,7 @@ theorem step_inv1 {s s' : State} {x : Inst} {a : Act} (inv : Inv1 s x) (hsc : in
             refine ⟨{ x with loaded := x.loaded.erase t }, ?_⟩
             have := key { x with loaded := x.loaded.erase t }
               (if decision x.range t (x.nbrs.zip answers) = .delete ∨ Facts.c09LoadedGuarded ≠ 1
-                then rmFile s.files (.sst u) else s.files) rfl rfl rfl
+                then rmFile s.files (.sst u) else s.files) rfl rfl rfl rfl
               (by
                 intro f hf hne
                 split
@@ -695,7 +744,7 @@ theorem step_frame {s s' : State} {a : Act} {j : Nat} {x : Inst} (h : step s a =
     · rename_i xi hi
       split at h
       · injection h with h; subst h
-        refine frame_set hi hj rfl (fun _ hu => List.mem_cons_of_mem _ hu) (fun _ ht => Or.inl ht) ?_
+        refine frame_set hi hj rfl (fun _ hu => hu) (fun _ ht => Or.inl ht) ?_
         intro c hc
         rcases List.mem_append.mp hc with hc | hc
         · exact Or.inl hc
@@ -836,5 +885,28 @@ theorem needsTable_of_notNeeded {x : Inst} {u : Path} (h1 : u ∉ uris x.current
   intro c hc
   have := h2 c hc
   simp [ckptIncludes, this]
+
+
+/-! ## WAL numbering after a restore -/
+
+theorem foldl_max_num (ws : List Wal) : ∀ m : Nat,
+    m ≤ ws.foldl (fun m w => max m w.num) m ∧ ∀ w ∈ ws, w.num ≤ ws.foldl (fun m w => max m w.num) m := by
+  induction ws with
+  | nil => intro m; exact ⟨Nat.le_refl _, by intro w hw; cases hw⟩
+  | cons v vs ih =>
+    intro m
+    obtain ⟨h1, h2⟩ := ih (max m v.num)
+    simp only [List.foldl_cons]
+    refine ⟨Nat.le_trans (Nat.le_max_left ..) h1, ?_⟩
+    intro w hw
+    rcases List.mem_cons.mp hw with rfl | hw
+    · exact Nat.le_trans (Nat.le_max_right ..) h1
+    · exact h2 w hw
+
+theorem nextWalId_gt (ws : List Wal) : ∀ w ∈ ws, w.num < nextWalId ws := by
+  intro w hw
+  simp only [nextWalId, Facts.c09NextWalIsMax, beq_self_eq_true, if_true]
+  have := (foldl_max_num ws 0).2 w hw
+  omega
 
 end Rxn.Files
